@@ -43,6 +43,47 @@ CHECKS = [
                       'and multi-process schedules are not simulated; histories are sampled, crash points per history are complete.',
         'technique': 'deterministic simulation: seeded histories on a fault-injecting file system, all crash points per history, reference model oracle',
     },
+    {
+        'property_id': 'C12',
+        'quick_cmd': './check C12 --tier quick',
+        'thorough_cmd': './check C12 --tier thorough',
+        'evidence_file': 'evidence/C12.json',
+        'replay_cmd_template': './check C12 --replay {path}',
+        'engine': 'vsim',
+        'level_claimed': {
+            'category': 'exploration',
+            'text': 'Seeded histories of the public editing API (single and bulk node addition/removal incl. one-shot iterators, '
+                    'implicit nodes through edges, interactions added/replaced/removed incl. operations that must be rejected, '
+                    'copy, subgraph, merge of pool members and blocks, Block.to_molecule, MergeChains, MergeAllMolecules) are applied '
+                    'in interleaved order to a pool of up to four live real Molecule objects and to a cache-free reference model; '
+                    'after every operation every pool member is compared with its model and checked for dangling references, so '
+                    'aliasing between a copy/subgraph and its source and stale cached state surface at the step that exposes them.',
+            'design_ref': 'DESIGN.md 4/C12, appendix B',
+        },
+        'level_note': 'Histories are sampled (5-40 ops), not enumerated. Node and interaction order are not compared. '
+                      'Trusted: networkx base-class semantics, the reference model.',
+        'technique': 'deterministic simulation: seeded operation histories against a reference model, invariants after every step, ddmin-minimised replay',
+    },
+    {
+        'property_id': 'C02',
+        'quick_cmd': './check C02 --tier quick',
+        'thorough_cmd': './check C02 --tier thorough',
+        'evidence_file': 'evidence/C02.json',
+        'replay_cmd_template': './check C02 --replay {path}',
+        'engine': 'vsim',
+        'level_claimed': {
+            'category': 'exploration',
+            'text': 'The ITP writer is the observation function of the simulated worlds: every state an editing history reaches '
+                    '(sparse/negative/unordered keys after merges and removals, atom ids absent/permuted/partial, guards, groups, '
+                    'versions, impropers, virtual_sitesn) may be written; the text is read back by an independent tokenizer and '
+                    'compared field by field with a snapshot of the object in memory (atoms 1..N in atom-id order, every interaction '
+                    'as a multiset of (section, guard, atom indices, parameters)).',
+            'design_ref': 'DESIGN.md 4/C02, appendix C',
+        },
+        'level_note': 'States are reached by sampled histories; atoms with a mass but no charge are ambiguous in the format and '
+                      'their charge/mass columns are not compared. Trusted: the 150-line reader/comparison in sim/vsim/itpcheck.py.',
+        'technique': 'deterministic simulation: writer observed on history-produced states, independent reader as oracle',
+    },
 ]
 
 MANIFEST = {
